@@ -132,7 +132,62 @@ func Load(cfg LoadConfig) (*Interp, []*packages.Package, error) {
 			return nil, nil, fmt.Errorf("init of %s: %v", tp.Path(), err)
 		}
 	}
+	in.protectGlobals()
 	return in, pkgs, nil
+}
+
+// protectGlobals records every memory cell reachable from the package-level
+// variables of the repository's packages. Paths share that memory, so a store
+// into it after initialisation (directly or through a pointer) aborts the path.
+func (in *Interp) protectGlobals() {
+	in.globalCells = map[*Value]bool{}
+	var walkVal func(v Value, depth int)
+	var walkCell func(c *Value, depth int)
+	walkCell = func(c *Value, depth int) {
+		if c == nil || in.globalCells[c] || depth > 64 {
+			return
+		}
+		in.globalCells[c] = true
+		walkVal(*c, depth+1)
+	}
+	walkVal = func(v Value, depth int) {
+		switch v := v.(type) {
+		case Struct:
+			for i := range v {
+				walkCell(&v[i], depth)
+			}
+		case Array:
+			for i := range v {
+				walkCell(&v[i], depth)
+			}
+		case []Value:
+			full := v[:cap(v)]
+			for i := range full {
+				walkCell(&full[i], depth)
+			}
+		case *Value:
+			walkCell(v, depth)
+		case Iface:
+			walkVal(v.V, depth+1)
+		case *Map:
+			if v != nil {
+				for _, e := range v.entries {
+					walkCell(&e.v, depth)
+				}
+			}
+		case *Closure:
+			if v != nil {
+				for i := range v.Env {
+					walkVal(v.Env[i], depth+1)
+				}
+			}
+		}
+	}
+	for g, cell := range in.globals {
+		if g.Pkg != nil && in.repoPkgs[g.Pkg] && !strings.HasPrefix(g.Name(), "vp") {
+			walkCell(cell, 0)
+		}
+	}
 }
 
 // initOrder returns all packages in dependency (post) order.
